@@ -17,7 +17,6 @@ import (
 	"github.com/nspcc-dev/neo-go/pkg/core/state"
 	"github.com/nspcc-dev/neo-go/pkg/core/storage"
 	"github.com/nspcc-dev/neo-go/pkg/core/transaction"
-	"github.com/nspcc-dev/neo-go/pkg/encoding/address"
 	"github.com/nspcc-dev/neo-go/pkg/encoding/bigint"
 	"github.com/nspcc-dev/neo-go/pkg/io"
 	"github.com/nspcc-dev/neo-go/pkg/smartcontract/trigger"
@@ -868,36 +867,35 @@ func (dao *Simple) DeleteBlock(h util.Uint256) (uint64, error) {
 	dao.Store.Delete(key)
 
 	for _, tx := range b.Transactions {
+		// The block is stored trimmed (hashes only), attributes and signers are
+		// in the transaction record.
+		if fullTx, _, err := dao.GetTransaction(tx.Hash()); err == nil {
+			tx = fullTx
+		}
 		copy(key[1:], tx.Hash().BytesBE())
 		dao.Store.Delete(key)
 		for _, attr := range tx.GetAttributes(transaction.ConflictsT) {
 			hash := attr.Value.(*transaction.Conflicts).Hash
 			copy(key[1:], hash.BytesBE())
 
+			// The stub may be gone already: it's shared by all transactions
+			// conflicting with this hash.
 			v, err := dao.Store.Get(key)
-			if err != nil {
-				return 0, fmt.Errorf("failed to retrieve conflict record stub for %s (height %d, conflict %s): %w", tx.Hash().StringLE(), b.Index, hash.StringLE(), err)
-			}
 			// It might be a block since we allow transactions to have block hash in the Conflicts attribute.
-			if v[0] != storage.ExecTransaction {
+			if err == nil && v[0] != storage.ExecTransaction {
 				continue
 			}
-			index := binary.LittleEndian.Uint32(v[1:])
 			// We can check for `<=` here, but use equality comparison to be more precise
 			// and do not touch earlier conflict records (if any). Their removal must be triggered
 			// by the caller code.
-			if index == b.Index {
+			if err == nil && len(v) == conflictRecordValueLen && binary.LittleEndian.Uint32(v[1:]) == b.Index {
 				dao.Store.Delete(key)
 			}
 
 			for _, s := range tx.Signers {
 				sKey := append(key, s.Account.BytesBE()...)
 				v, err := dao.Store.Get(sKey)
-				if err != nil {
-					return 0, fmt.Errorf("failed to retrieve conflict record for %s (height %d, conflict %s, signer %s): %w", tx.Hash().StringLE(), b.Index, hash.StringLE(), address.Uint160ToString(s.Account), err)
-				}
-				index = binary.LittleEndian.Uint32(v[1:])
-				if index == b.Index {
+				if err == nil && len(v) == conflictRecordValueLen && binary.LittleEndian.Uint32(v[1:]) == b.Index {
 					dao.Store.Delete(sKey)
 				}
 			}
